@@ -1,13 +1,51 @@
 # C09 — JitAllocator bookkeeping (inductive step)
 UNITS = [
     # the harness #includes asmjit/core/jitallocator.cpp (file-local classes); VirtMem and pthread_mutex_* are stubbed in jit_env.h
-    Unit('block1', harness=['h_block1.cpp'], repo_units=[]),
+    Unit('block1', harness=['h_block1.cpp'], repo_units=[], extra_c=['cbmc_mem.c']),
+    Unit('world2', harness=['h_world2.cpp'], repo_units=[], extra_c=['cbmc_mem.c'], defines=['JENV_POOLS=3', 'JENV_NEW_BLOCK_WORDS=8']),
+    Unit('bits', harness=['h_bits.cpp'], repo_units=[], extra_c=['cbmc_mem.c']),
+    Unit('gen', harness=['h_gen.cpp'], repo_units=[], extra_c=['cbmc_mem.c']),
 ]
+B1 = '1 block of 64 granules in any state satisfying I(block), any window/flags; '
+B2 = '1 block of 128 granules (two bit words) in any state satisfying I(block); '
+MEM = 'memset.0:10,memset.1:9,memcpy.0:10,memcpy.1:9'
 HARNESSES = [
-    Harness('block1', 'h_alloc_w1', unwind=34, bounds='1 block, 64 granules', mem_gb=6, timeout=900),
-    Harness('block1', 'h_release_w1', unwind=5, bounds='1 block, 64 granules', mem_gb=6, timeout=900),
+    Harness('block1', 'h_alloc_w1', unwind=4, bounds=B1 + 'every size; at most 2 free runs', unwindset=MEM, mem_gb=6, timeout=900),
+    Harness('block1', 'h_alloc_w2', unwind=4, bounds=B2 + 'every size; at most 2 free runs', unwindset=MEM, mem_gb=8, timeout=1800, tiers=('thorough',)),
+    Harness('block1', 'h_release_w1', unwind=5, bounds=B1 + 'every live span', unwindset=MEM, mem_gb=4),
+    Harness('block1', 'h_release_w2', unwind=5, bounds=B2 + 'every live span', unwindset=MEM, mem_gb=4),
+    Harness('block1', 'h_release_imm_w1', unwind=5, bounds=B1 + 'immediate release', unwindset=MEM, mem_gb=4),
+    Harness('block1', 'h_release_kf_C09A', unwind=5, bounds=B1 + 'region of C09A', unwindset=MEM, mem_gb=4, known='C09A'),
+    Harness('block1', 'h_release_kf_C09B', unwind=5, bounds=B1 + 'region of C09B', unwindset=MEM, mem_gb=4, known='C09B'),
+    Harness('block1', 'h_shrink_w1', unwind=5, bounds=B1 + 'every granule as span start, every new size', unwindset=MEM, mem_gb=4),
+    Harness('block1', 'h_shrink_w2', unwind=5, bounds=B2 + 'every granule as span start, every new size', unwindset=MEM, mem_gb=4),
+    Harness('block1', 'h_shrink_kf_C09A', unwind=5, bounds=B1 + 'region of C09A', unwindset=MEM, mem_gb=4, known='C09A'),
+    Harness('block1', 'h_shrink_kf_C09F', unwind=5, bounds=B1 + 'region of C09F', unwindset=MEM, mem_gb=4, known='C09F'),
+    Harness('block1', 'h_query_w1', unwind=5, bounds=B1 + 'every pointer', unwindset=MEM, mem_gb=4),
+    Harness('block1', 'h_query_w2', unwind=5, bounds=B2 + 'every pointer, dual mapping', unwindset=MEM, mem_gb=4),
+    Harness('block1', 'h_reject', unwind=5, bounds=B1, unwindset=MEM, mem_gb=4),
+    Harness('block1', 'h_not_initialized', unwind=5, bounds='', unwindset=MEM, mem_gb=4),
+    Harness('block1', 'h_statistics', unwind=5, bounds=B2, unwindset=MEM, mem_gb=4),
+    Harness('block1', 'h_initialized_kf_C09C', unwind=5, bounds='', unwindset=MEM, mem_gb=4, known='C09C'),
+    Harness('world2', 'h_first_block', unwind=10, unwindset=MEM, bounds='empty allocator, 4 boundary sizes, default options, OS refusing or not', mem_gb=8),
+    Harness('world2', 'h_first_block_b', unwind=10, unwindset=MEM, bounds='same, 4 more sizes', mem_gb=8, tiers=('thorough',)),
+    Harness('world2', 'h_first_block_nopad_dual', unwind=10, unwindset=MEM, bounds='same, no padding + dual mapping, granularity 128', mem_gb=8, tiers=('thorough',)),
+    Harness('world2', 'h_first_block_large_refused', unwind=10, unwindset=MEM, bounds='same, large pages refused by the OS (fallback to regular pages)', mem_gb=8, tiers=('thorough',)),
+    Harness('world2', 'h_first_block_large_align', unwind=10, unwindset=MEM, bounds='same, large pages + align + no padding, granularity 256', mem_gb=8, tiers=('thorough',)),
+    Harness('world2', 'h_first_block_multipool', unwind=10, unwindset=MEM, bounds='same, 3 pools, sizes selecting each pool', mem_gb=8, tiers=('thorough',)),
+    Harness('world2', 'h_block_size_policy', unwind=6, unwindset=MEM, bounds='every request size, base 64 KiB..8 MiB, last block base*2^k', mem_gb=6),
+    Harness('world2', 'h_second_block', unwind=10, unwindset=MEM, bounds='pool with one full block of 64 granules, 4 boundary sizes', mem_gb=6),
+    Harness('world2', 'h_release_2b', unwind=6, unwindset=MEM, bounds='2 blocks of 64 granules in any states of I, any list order / tree shape / cursor', mem_gb=6),
+    Harness('world2', 'h_release_2b_imm', unwind=6, unwindset=MEM, bounds='same, immediate release', mem_gb=6),
+    Harness('bits', 'h_bv_fill_clear', unwind=5, unwindset=MEM, bounds='3 words, every index/count', mem_gb=4),
+    Harness('bits', 'h_bv_bit', unwind=5, unwindset=MEM, bounds='3 words, every index', mem_gb=4),
+    Harness('bits', 'h_bv_index_of', unwind=5, unwindset=MEM, bounds='3 words, every start', mem_gb=4),
+    Harness('bits', 'h_range_iter_free', unwind=5, unwindset=MEM, bounds='2 words, any iterator state, any end, any hint', mem_gb=4),
+    Harness('bits', 'h_range_iter_used', unwind=5, unwindset=MEM, bounds='2 words, any iterator state, any end, any hint', mem_gb=4),
+    Harness('bits', 'h_range_iter_init', unwind=5, unwindset=MEM, bounds='2 words, every start < end', mem_gb=4),
+    Harness('gen', 'h_gen_complete_w1', unwind=5, unwindset=MEM, bounds='every state of I, 64 granules', mem_gb=4),
+    Harness('gen', 'h_gen_complete_w2', unwind=5, unwindset=MEM, bounds='every state of I, 128 granules', mem_gb=4),
 ]
-HARNESSES += [Harness('block1','h_release_imm_w1',unwind=5), Harness('block1','h_release_w2',unwind=5)]
 EXPLANATION = 'x'
 OUTSIDE = []
 ASSUMPTIONS = []
